@@ -24,6 +24,7 @@ import (
 	"time"
 
 	"github.com/coreos/etcd/raft/raftpb"
+	pb "github.com/marekgalovic/anndb/protobuf"
 	uuid "github.com/satori/go.uuid"
 )
 
@@ -41,7 +42,11 @@ func runRaft(c *Ctx) {
 		if trials-b*batch < n {
 			n = trials - b*batch
 		}
-		streamChild(c, time.Duration(60+n*60)*time.Second, "C05", "raft", fmt.Sprint(c.Seed*1000+uint64(b)), fmt.Sprint(n), c.Tier)
+		as := c.Args["as"]
+		if as == "" {
+			as = "C05"
+		}
+		streamChild(c, time.Duration(60+n*60)*time.Second, as, "raft", fmt.Sprint(c.Seed*1000+uint64(b)), fmt.Sprint(n), c.Tier, as)
 	}
 }
 
@@ -61,12 +66,22 @@ func attested(m *raftpb.Message, hs raftpb.HardState, last uint64, self uint64) 
 	return true
 }
 
+// raftAs: the property the run reports under. C05 is the engine's own; under C03 only what C03
+// rests on is reported: an append acknowledgement that leaves a replica before the entries are in
+// its log store lets the leader commit, and the client be answered, on a quorum that does not
+// durably hold the write.
+var raftAs = "C05"
+
 func childRaft(args []string) {
 	seed, _ := strconv.ParseUint(args[0], 10, 64)
 	trials, _ := strconv.Atoi(args[1])
 	thorough := len(args) > 2 && args[2] == "thorough"
 	rng := NewRng(seed)
 	out := cout
+	if len(args) > 3 {
+		raftAs = args[3]
+	}
+	raftCorpusVoteBeforeAppend(out)
 	for t := 0; t < trials; t++ {
 		raftTrial(out, rng.Fork(), t, thorough)
 	}
@@ -105,7 +120,11 @@ func raftTrial(out *childOut, r *Rng, t int, thorough bool) {
 				out.Res("premature")
 			}
 		}
-		if !ok {
+		if !ok && raftAs == "C03" {
+			if m.Type == raftpb.MsgAppResp {
+				out.Violate("C03", "C03/append-acknowledged-before-durable", fmt.Sprintf("node %d acknowledged the append up to index %d (term %d) to leader %d while its log store held last index %d: the leader may commit and acknowledge a write that a crash of this replica loses", from.id, m.Index, m.Term, m.To, last))
+			}
+		} else if !ok {
 			out.Violate("C05", "C05/message-before-durable/"+m.Type.String(), fmt.Sprintf("node %d sent %s(term %d, index %d, reject %v) to %d while its log store held term %d, vote %d, last index %d", from.id, m.Type, m.Term, m.Index, m.Reject, m.To, hs.Term, hs.Vote, last))
 		}
 	}
@@ -175,6 +194,14 @@ func raftTrial(out *childOut, r *Rng, t int, thorough bool) {
 	for s := 0; s < steps; s++ {
 		live := c.live()
 		switch k := r.Intn(100); {
+		case k < 8 && len(live) > 1:
+			// a replica that does not lead starts an election: the leader has to step down
+			n := live[r.Intn(len(live))]
+			if l := c.leader(); l != nil && l.id == n.id {
+				n = live[(r.Intn(len(live)-1)+1+indexOfNode(live, n))%len(live)]
+			}
+			n.g.VerifCampaign()
+			out.Local("campaign node %d", n.id)
 		case k < 45 && len(live) > 0:
 			n := live[r.Intn(len(live))]
 			b := 1 + r.Intn(4)
@@ -327,5 +354,58 @@ func raftTrial(out *childOut, r *Rng, t int, thorough bool) {
 	if crashes > 0 && restarts > 0 && faults > 0 {
 		out.Nontrivial("crash-restart+faults")
 	}
+	c.teardown()
+}
+
+func indexOfNode(l []*rsNode, n *rsNode) int {
+	for i, x := range l {
+		if x == n {
+			return i
+		}
+	}
+	return 0
+}
+
+// corpus: a replica added to an existing group (started without peers on an empty log store)
+// grants a vote before any entry or snapshot reaches its store, crashes, and is reloaded with the
+// group's member list (partition.loadRaft(partition.nodeIds())). Its store holds a hard state and
+// nothing else: it must resume from that term and vote.
+func raftCorpusVoteBeforeAppend(out *childOut) {
+	out.Begin("corpus vote-before-first-append")
+	defer out.End()
+	c := newRsCluster(uuid.NewV4(), false, NewRng(7))
+	c.viol = func(p, s, w string) { out.Violate(p, s, w) }
+	n, err := c.start(1, nil, "node-1")
+	if err != nil {
+		out.Violate("C05", "C05/start-fails", err.Error())
+		return
+	}
+	vote := raftpb.Message{Type: raftpb.MsgVote, From: 2, To: 1, Term: 5, Index: 0, LogTerm: 0}
+	data, _ := vote.Marshal()
+	n.tr.Receive(context.Background(), &pb.RaftMessage{GroupId: c.gid.Bytes(), Message: data})
+	ok := waitFor(3*time.Second, func() bool {
+		hs, _ := n.w.HardState()
+		return hs.Term == 5 && hs.Vote == 2
+	})
+	out.Local("joiner 1 receives MsgVote(term 5) from 2; vote durable: %v", ok)
+	if !ok {
+		c.teardown()
+		return
+	}
+	n.ctl.kill()
+	n.stopIncarnation()
+	n2, err := c.start(1, []uint64{1, 2, 3}, "node-1")
+	if err != nil {
+		out.Violate("C05", "C05/restart-fails", err.Error())
+		return
+	}
+	time.Sleep(50 * time.Millisecond)
+	st := n2.g.VerifStatus()
+	li, _ := n2.w.LastIndex()
+	out.Local("reloaded with peers [1 2 3]: term %d vote %d last index %d", st.Term, st.Vote, li)
+	if st.Term < 5 || st.Vote != 2 {
+		out.Violate("C05", "C05/restart-older-than-durable", fmt.Sprintf("a replica whose log store held only the hard state (term 5, vote 2) was reloaded with its group's member list and resumed at term %d, vote %d, last index %d: it re-bootstrapped", st.Term, st.Vote, li))
+	}
+	out.Nontrivial("vote-before-first-append")
 	c.teardown()
 }
